@@ -20,7 +20,7 @@ ObsOK(o) ==
 PropsOK == LoopbackOnly' /\ AskedAfterBind' /\ ResolvesLast' /\ NoLeak' /\ FailureIsInjected' /\ Once' /\ StopCloses'
 Step(e) ==
   CASE e.a = "Foreign" -> (IF "kind" \in DOMAIN e /\ e.kind = "fetchfail" THEN FetchFailed ELSE Foreign) [] e.a = "Refuse" -> Refuse [] e.a = "Listen" -> Listen [] e.a = "ConfigReady" -> ConfigReady [] e.a = "CreateReply" -> CreateReply
-    [] e.a = "Disconnect" -> Disconnect [] e.a = "WaitOver" -> WaitOver [] e.a = "Cancel" -> Cancel [] e.a = "UnsubAck" -> UnsubAck [] e.a = "StopListening" -> StopListening [] e.a = "StartListening" -> StartListening [] e.a = "Relisten" -> Relisten
+    [] e.a = "Disconnect" -> Disconnect [] e.a = "WaitOver" -> WaitOver [] e.a = "Cancel" -> Cancel [] e.a = "UnsubAck" -> UnsubAck [] e.a = "StopListening" -> StopListening [] e.a = "StartListening" -> StartListening [] e.a = "Relisten" -> (IF "busy" \in DOMAIN e /\ e.busy THEN RelistenBusy ELSE Relisten)
     [] OTHER -> FALSE
 TInit == Init /\ tid \in 1..Len(Traces) /\ l = 1 /\ fault = Traces[tid].fault /\ cfgNow = Traces[tid].cfgnow /\ others = Traces[tid].others
 TNext ==
